@@ -744,6 +744,9 @@ class _Enc:
                 w(f'ref_wf_{seg.decl}(&o.f_{seg.name}, ef);')
             elif isinstance(seg, ArraySeg):
                 a = f'o.f_{seg.name}'
+                if seg.elem[0] == 'scalar' and backing(8 * seg.elem_static) > 8 * seg.elem_static:
+                    # elements of a non-native width live in a wider integer: out-of-range elements are scalar faults
+                    w(f'{{ let mut i: usize = 0; while i < {a}.len {{ if {a}.items[i] > {_wmask(8 * seg.elem_static)} {{ ef.add(EFault::Scalar); }} i += 1; }} }}')
                 if seg.padding is not None:
                     w(f'if alen_{n}_{seg.name}(o) > {seg.padding} {{ ef.add(EFault::Size); }}')
                 if seg.elem[0] == 'struct':
